@@ -29,7 +29,7 @@ MANIFEST = dict(
 
 SHAPED = (["kind:" + k for k in enumgen.KIND_NAMES] +
           ["iota", "offset", "shift", "explicit", "multi", "lin", "hex", "carried", "placeholder", "multi-block", "multi-file",
-           "prefixed", "unprefixed", "accidental-prefix", "distractor"])
+           "prefixed", "unprefixed", "accidental-prefix", "distractor", "near-dense", "near-dense", "non-ascii"])
 VARIANTS = ["local-harm", "local-harm", "local-ok", "local-ok", "nonident-carry", "nonident-carry", "nonident-paren", "nonident-paren",
             "nonident-ok", "nonident-ok"]
 REGION_SHAPES = ["neg"] * 6 + ["big"] * 4 + ["dupval"] * 3 + ["dupname"] * 3 + ["typedexpr"] * 2 + ["empty"]
